@@ -307,6 +307,44 @@ func init() {
 			}
 		}
 		if !*rich {
+			// values of any depth under {type: "any"}: depths around the sizes of small counters
+			for _, depth := range []int{1, 100, 127, 128, 129, 200, 255, 256, 257, 300} {
+				for _, kind := range []string{"obj", "arr"} {
+					deep := Value{T: "num", B: bytesToInts([]byte("1"))}
+					for i := 0; i < depth; i++ {
+						if kind == "obj" {
+							deep = Value{T: "obj", Ps: []KV{{Key("k"), deep}}}
+						} else {
+							deep = Value{T: "arr", Items: []Value{deep}}
+						}
+					}
+					for _, root := range []Node{
+						{T: "obj", Props: []Prop{{K: "a", N: Node{T: "lit", V: numV("1"), Rules: []Rule{rule("type", idRV("any"))}}}, {K: "b", N: Node{T: "lit", V: numV("2")}}}},
+						{T: "arr", Items: []Node{{T: "lit", V: numV("1"), Rules: []Rule{rule("type", idRV("any"))}}}}} {
+						// in the trace the deep value is one abstract value (TLC's JSON reader stops at 255 levels); the requirement does not
+						// look into a value under "any"
+						abs := map[string]interface{}{"t": "deep", "kind": kind, "depth": depth}
+						var doc Value
+						var docAbs map[string]interface{}
+						if root.T == "obj" {
+							doc = Value{T: "obj", Ps: []KV{{Key("a"), deep}, {Key("b"), Value{T: "num", B: bytesToInts([]byte("2"))}}}}
+							docAbs = map[string]interface{}{"t": "obj", "ps": []interface{}{map[string]interface{}{"k": []int{97}, "v": abs},
+								map[string]interface{}{"k": []int{98}, "v": map[string]interface{}{"t": "num", "b": []int{50}}}}}
+						} else {
+							doc = Value{T: "arr", Items: []Value{deep, deep}}
+							docAbs = map[string]interface{}{"t": "arr", "items": []interface{}{abs, abs}}
+						}
+						sch, _, err := buildSchema(root, Env{}, false, true)
+						if err != nil || sch.Check() != nil {
+							fatal("the deep-any probe schema is not accepted")
+						}
+						got := validateValue(sch, doc)
+						calls++
+						w.Write(map[string]interface{}{"op": "validate", "schema": root, "env": Env{}, "opt": false, "doc": docAbs, "ok": got.OK,
+							"code": got.Code, "kind": got.Kind, "text": renderSchema(root).Text, "doctext": fmt.Sprintf("%s nested %d deep under any", kind, depth)})
+					}
+				}
+			}
 			// the unit of minLength / maxLength on strings outside ASCII (bytes or code points: the statement does not say, but it is ONE unit):
 			// for every probe string the schemas {minLength: k, maxLength: k}, k = 0..9, accept it for exactly one k, its length
 			// the second member of a pair: the spelling of the document when it is not the plain one - \u escapes, a surrogate pair, and a
